@@ -469,7 +469,11 @@ def run_case(ops) -> tuple[list, list, list]:
     queries = []
     for m in range(len(w.maps)):
         for q in QUERIES:
-            got = sorted({w.eid(m, e) for e in w.maps[m].search(q)})
+            try:
+                got = sorted({w.eid(m, e) for e in w.maps[m].search(q)})
+            except Exception as exc:   # noqa: BLE001
+                RAISED.append((ops, f'search({q!r}): {type(exc).__name__}: {exc}'))
+                got = [-1]
             queries.append((m, q, got))
     return steps, queries, iters
 
@@ -709,6 +713,8 @@ def run(ck: Ck) -> None:
                 'all_key_dict_escapes_known': 'all_key_escapes_known',
                 'all_entity_list_writers_modelled': 'all_entity_list_writers_modelled',
                 'all_spawn_writers_modelled': 'all_spawn_writers_modelled',
+                'remove_ent_keeps_the_worldspawn_indexed': 'remove_ent_skips_worldspawn',
+                'remove_ent_keeps_an_entity_that_is_still_listed_indexed': 'remove_ent_skips_still_listed',
                 'every_modelled_index_writer_seen': 'every_modelled_writer_seen',
                 'entity_index_adds_guarded_by_membership': 'entity_adds_guarded',
                 'setitem_rekeys_by_class_remove_and_add': 'rekeys_balanced "Entity.__setitem__" "by_class"',
